@@ -15,6 +15,8 @@ DECIDED = [
     "TMPKEY: the byte-cursor variants make a NUL-terminated copy of the key, pass exactly it to the C-string variant and destroy it on every path; JSON text is parsed from a NUL-terminated private copy (C04 WRAPPER)",
     "TREE-SHAPE: cJSON's append (add_item_to_array, used for array elements and object members) and detach (cJSON_DetachItemViaPointer, used by both removals) keep the child list well formed - forward order = insertion order minus removals, first->prev is the last child, last->next is NULL, every prev link matches, the detached item is fully unlinked - for every list length 0..4 and every position, by symbolic-heap interpretation of their bodies",
     "ESCAPE-AGREE: in cJSON's string printer the length pass and the writing pass agree byte for byte: the same characters get two-byte escapes in both, every other character below 32 is counted as and written as a six-byte \\\\uXXXX escape, everything else is copied",
+    "HEX4: parse_hex4 maps every character of the three hex-digit classes to its value and lets nothing else contribute (the printer's lower-case \\u00xx escapes read back) - NUM, every character of each class",
+    "FIELD-AGREE: the cJSON fields each typed getter (boolean, number, string) reads are fields which the constructor behind aws_json_value_new_* and the parser both store",
     "NUMBER: numbers print as integers exactly when equal to their integer view, else with 15 significant digits when that text re-reads within a purely relative epsilon of the value, else with 17; NaN / infinities print as null",
     "PRINT-WRAP: the serialisers check the printer's result, append it to the caller's buffer and free it on every path; all cJSON nodes come from the library allocator installed by aws_json_module_init",
 ]
@@ -457,6 +459,125 @@ def surrogates(R, P):
             "escaped characters beyond the BMP are decoded to another code point than the text denotes: %s" % bad)
 
 
+def hex4(R, P):
+    """HEX4: in parse_hex4 every character that contributes to the code unit contributes its hexadecimal value
+    ('0'..'9' -> c - '0', 'A'..'F' -> c - 'A' + 10, 'a'..'f' -> c - 'a' + 10), and nothing else contributes: the printer writes
+    control characters as \\u00xx with lower-case digits, the reader must map them back (NUM, all characters per class)."""
+    from sa.awslib import AwsHooks
+    from sa.bounds import EntryExtents
+    from sa.num import Num, Poly, Limit, entails
+    f = P.fn("parse_hex4")
+    if not R.require(f is not None and f.params, "parse_hex4 not found in cJSON.c"):
+        return
+    R.fn(f)
+    num = Num(f, P, EntryExtents(AwsHooks(), f, {f.params[0]["n"]: 4}))
+    sites = []
+    for b in f.blocks.values():
+        for el in b.elems:
+            if el["k"] == "bin" and el["op"] in ("+=", "=", "|="):
+                rd = [n for n in f.walk(f.d(el["a"][1])) if n["k"] == "index" or (n["k"] == "un" and n["op"] == "deref")]
+                if rd:
+                    sites.append((el, rd[0]))
+    if not R.require(len(sites) >= 1, "parse_hex4: no statement that adds a digit read from the input was found"):
+        return
+    try:
+        sts = num.states_at({el["id"] for el, _ in sites})
+    except Limit as ex:
+        R.broken(str(ex))
+        return
+    classes = ((48, 57, 48, "'0'..'9'"), (65, 70, 55, "'A'..'F'"), (97, 102, 87, "'a'..'f'"))
+    seen, n_dec = set(), 0
+    for el, rd in sites:
+        for st in sts.get(el["id"], []):
+            c = num.val(rd, st)
+            d = num.val(f.d(el["a"][1]), st)
+            old = num.val(f.d(el["a"][0]), st)
+            if c is None or d is None:
+                continue
+            if el["op"] == "=" and old is not None:
+                d = d - old * 16 if (d - old * 16).atoms().isdisjoint(old.atoms()) else d - old
+            if not (d.atoms() <= c.atoms()) or d.degree() > 1:
+                R.notes.append("parse_hex4: the contribution %r of `%s` is not a linear function of the character read (not decided)" % (d, f.show(el)[:60]))
+                continue
+            loc = "%s:%d in parse_hex4()" % (CJ, el.get("loc", [0])[0])
+            rest = [st]
+            for lo, hi, off, nm in classes:
+                ins = []
+                for s1 in num.assume_cmp(">=", c, Poly.const(lo), st.copy()):
+                    ins.extend(num.assume_cmp("<=", c, Poly.const(hi), s1))
+                ins = [s2 for s2 in ins if not s2.infeasible()] if hasattr(st, "infeasible") else ins
+                for s2 in ins:
+                    lo2, hi2 = num.simple_bounds(s2, c)
+                    if lo2 is None or hi2 is None or lo2 > hi2:
+                        continue
+                    n_dec += 1
+                    seen.add(nm)
+                    want = c - off
+                    R.check(entails(s2, d - want) and entails(s2, want - d), "HEX4", "digit-value:%s" % nm, loc, "a character in %s contributes c - %d" % (nm, off),
+                            "a character in %s contributes %r to the code unit, its hexadecimal value is c - %d (\\u001f, as the printer writes it, would not read back as 0x1f)" % (nm, d, off))
+            lo0, hi0 = num.simple_bounds(st, c)
+            inside = lo0 is not None and hi0 is not None and any(lo <= lo0 and hi0 <= hi for lo, hi, _, _ in classes)
+            R.check(inside, "HEX4", "only-hex-digits-contribute", loc, "the contributing character is confined to one class of hex digits",
+                    "a character in [%s, %s] contributes to the code unit: not confined to one of '0'..'9', 'A'..'F', 'a'..'f'" % (lo0, hi0))
+    R.check(seen == {nm for _, _, _, nm in classes}, "HEX4", "all-three-classes-accepted", "%s in parse_hex4()" % CJ, "digits, upper-case and lower-case letters are all decoded",
+            "only %s contribute: an escape written with the other digits is rejected (the printer writes lower-case)" % sorted(seen))
+
+
+def field_agree(R, P):
+    """FIELD-AGREE: the fields of a cJSON node a typed getter reads (itself and through the cJSON helpers it calls) are fields the
+    constructor of that kind stores and the parser stores: what was built through the API reads back the same before and after a
+    round trip through text.  (The node's other fields are zero from the allocation, not the value.)"""
+    pairs = (("aws_json_value_get_boolean", ("aws_json_value_new_boolean",)), ("aws_json_value_get_number", ("aws_json_value_new_number",)),
+             ("aws_json_value_get_string", ("aws_json_value_new_string", "aws_json_value_new_string_from_c_str")))
+
+    def closure(f0, depth=3):
+        seen, work = {}, [(f0, 0)]
+        while work:
+            g, d = work.pop()
+            if g is None or g.name in seen or not getattr(g, "blocks", None):
+                continue
+            seen[g.name] = g
+            if d < depth:
+                for e in g.calls():
+                    cn = e.node.get("callee") or ""
+                    if cn.startswith("cJSON_"):
+                        work.append((P.fn(cn), d + 1))
+        return list(seen.values())
+
+    def fields(fs, modes):
+        out = {}
+        for g in fs:
+            for e in g.field_accesses(rec="cJSON", modes=modes):
+                out.setdefault(e.node["f"], "%s:%d" % (g.name, e.node.get("loc", [0])[0]))
+        return out
+    parser = [P.fn(n) for n in ("parse_value", "parse_number", "parse_string")]
+    if not R.require(all(g is not None for g in parser), "cJSON parser functions (parse_value / parse_number / parse_string) not found"):
+        return
+    pw = fields(parser, ("w", "rw"))
+    R.require(len(pw) >= 3, "the parser stores only %s" % sorted(pw))
+    for getter, ctors in pairs:
+        g = P.fn(getter)
+        if not R.require(g is not None, "%s not found" % getter):
+            continue
+        R.fn(g)
+        rd = fields(closure(g), ("r", "rw"))
+        if not R.require(len(rd) >= 1, "%s reads no cJSON field" % getter):
+            continue
+        for cn in ctors:
+            c = P.fn(cn)
+            if not R.require(c is not None, "%s not found" % cn):
+                continue
+            cw = fields([x for x in closure(c) if x.name != cn and x.name.startswith("cJSON_Create")] or closure(c), ("w", "rw"))
+            if not R.require(len(cw) >= 1, "%s: no cJSON constructor storing fields found" % cn):
+                continue
+            miss = sorted(k for k in rd if k not in cw)
+            R.check(not miss, "FIELD-AGREE", "%s:reads-what-%s-stores" % (getter, cn), "%s in %s()" % (FILE, getter), "reads %s, the constructor stores %s" % (sorted(rd), sorted(cw)),
+                    "%s reads field(s) %s (at %s) which the constructor behind %s never stores (it stores %s): a value built through the API reads back as the allocation's zero, not as what was stored" % (getter, miss, [rd[k] for k in miss], cn, sorted(cw)))
+        miss = sorted(k for k in rd if k not in pw)
+        R.check(not miss, "FIELD-AGREE", "%s:reads-what-the-parser-stores" % getter, "%s in %s()" % (FILE, getter), "reads %s, the parser stores %s" % (sorted(rd), sorted(pw)),
+                "%s reads field(s) %s which the parser never stores" % (getter, miss))
+
+
 def analyse(ctx, replace=None, only=None):
     R = ctx.R
     units = [u for u in library_units(ctx.ex.repo) if "external" not in u or u.endswith("cJSON.c")]
@@ -470,6 +591,8 @@ def analyse(ctx, replace=None, only=None):
     print_room(R, P)
     escapes(R, P)
     surrogates(R, P)
+    hex4(R, P)
+    field_agree(R, P)
     number_alphabet(R, P)
     duplicate_links(R, P)
     key_compare(R, P)
@@ -479,6 +602,8 @@ def analyse(ctx, replace=None, only=None):
 
 
 MUTANTS = [
+    {"name": "get-boolean-reads-valueint", "file": FILE, "expect": "FIELD-AGREE", "old": "    *output = cjson->type == cJSON_True;", "new": "    *output = cjson->valueint != 0;"},
+    {"name": "hex4-lower-case-letters-through-the-upper-case-formula", "file": CJ, "expect": "HEX4", "old": "            h += (unsigned int) 10 + input[i] - 'a';", "new": "            h += (unsigned int) 10 + input[i] - 'A';"},
     {"name": "duplicate-key-allowed", "file": FILE, "expect": "GUARD", "old": "    if (cJSON_HasObjectItem(cjson, key)) {\n        return AWS_OP_ERR;\n    }\n\n    cJSON_AddItemToObject(cjson, key, cjson_value);", "new": "    cJSON_AddItemToObject(cjson, key, cjson_value);"},
     {"name": "remove-case-sensitive", "file": FILE, "expect": "GUARD", "old": "    cJSON_DeleteItemFromObject(cjson, key);", "new": "    cJSON_DeleteItemFromObjectCaseSensitive(cjson, key);"},
     {"name": "array-index-off-by-one", "file": FILE, "expect": "GUARD", "old": "    if (index >= (size_t)cJSON_GetArraySize(cjson)) {\n        return aws_raise_error(AWS_ERROR_INVALID_INDEX);\n    }\n\n    cJSON_DeleteItemFromArray", "new": "    if (index > (size_t)cJSON_GetArraySize(cjson)) {\n        return aws_raise_error(AWS_ERROR_INVALID_INDEX);\n    }\n\n    cJSON_DeleteItemFromArray"},
